@@ -261,6 +261,7 @@ class MultiWcsProcessor(object):
 
     def _tile_parallel(self, pio, reproject_function, cli_progress, parallel, **kwargs):
         import multiprocessing as mp
+        from .par_util import finish_workers, put_to_workers
 
         # Start up the workers
 
@@ -281,17 +282,12 @@ class MultiWcsProcessor(object):
 
         with progress_bar(total=len(self._descs), show=cli_progress) as progress:
             for image, desc in zip(self._collection.images(), self._descs):
-                queue.put((image, desc, self._combined_wcs))
+                put_to_workers(queue, (image, desc, self._combined_wcs), workers)
                 progress.update(1)
 
         # Wrap up
 
-        queue.close()
-        queue.join_thread()
-        done_event.set()
-
-        for w in workers:
-            w.join()
+        finish_workers(queue, done_event, workers)
 
 
 def _mp_tile_worker(queue, done_event, pio, reproject_function, kwargs):
